@@ -5,7 +5,7 @@ use std::{cmp::min_by_key, collections::HashMap};
 use internment::ArcIntern;
 
 use crate::expression::{
-    calculate_function, calculate_infix, interned, real, Expression, ExpressionFunction,
+    calculate_function, calculate_infix, interned, negate, real, Expression, ExpressionFunction,
     FunctionCallExpression, InfixExpression, InfixOperator, PrefixExpression, PrefixOperator,
 };
 
@@ -793,7 +793,7 @@ impl Simplifier {
             PrefixOperator::Plus => expr,
 
             PrefixOperator::Minus => match expr.as_ref() {
-                Expression::Number(x) => interned::number(-*x),
+                Expression::Number(x) => interned::number(negate(*x)),
 
                 Expression::Prefix(PrefixExpression {
                     operator: PrefixOperator::Minus,
